@@ -273,6 +273,11 @@ class AbstractDateTime(AnyAtomicType):
             raise TypeError("wrong type %r for operand %r" % (type(other), other))
 
         if self._year != year:
+            if abs(self._year - year) <= 2 and isinstance(other, AbstractDateTime):
+                try:  # contiguous years: the timezones can reverse the order of the years
+                    return op(self.todelta(), other.todelta())
+                except OverflowError:
+                    pass
             return op(self._year, year)
         elif self._dt.tzinfo is dt.tzinfo:
             return op(self._dt, dt)
